@@ -25,8 +25,8 @@ RULE = "one obligation per path of each accessor with symbolic fields; Toggle: e
 EXHAUSTIVE = True
 
 
-def writers_of(K, field):
-    return fn.effective_writers(K, field)
+def writers_of(K, slot):
+    return fn.effective_writers(K, fn.slot_root(slot))
 
 
 def _writers_of_direct(K, field):
@@ -151,18 +151,18 @@ def steady(ctx, K):
 
     def run(it, w):
         o = it.call(SD, [Ext("joystick", "user", role="instance"), Sym("button", "num", uid=0), P], {})
-        nums = [k for k, v in o.fields.items() if not isinstance(v, (Ext, bool)) and v is not None and k != "button"]
+        nums = [k for k, v in fn.slots(o).items() if not isinstance(v, (Ext, bool)) and v is not None and k != "button"]
         # roles: the field initialised to -period is the anchor, the one equal to float(period) the period
-        anchor = [k for k in nums if _lin_eq(o.fields[k], Lin.of(P).scale(-1))]
-        period = [k for k in nums if _lin_eq(o.fields[k], P)]
+        anchor = [k for k in nums if _lin_eq(fn.slots(o)[k], Lin.of(P).scale(-1))]
+        period = [k for k in nums if _lin_eq(fn.slots(o)[k], P)]
         if len(anchor) != 1 or len(period) != 1:
-            raise AnalysisError(f"cannot infer anchor/period fields of the steady debouncer: {o.fields}")
-        o.fields[anchor[0]] = L
+            raise AnalysisError(f"cannot infer anchor/period fields of the steady debouncer: {dict(fn.slots(o).items())}")
+        fn.slots(o)[anchor[0]] = L
         r = it.call(it.getattr(o, "get"), [], {})
         if isinstance(r, Cond):
             r = it.truth(r)
         now = [e.extra for e in it.trace if e.kind == "clock"]
-        return r, o.fields[anchor[0]], now, anchor[0]
+        return r, fn.slots(o)[anchor[0]], now, anchor[0]
 
     paths = fn.all_paths(ctx, run)
     ctx.add("paths", len(paths))
@@ -199,7 +199,7 @@ def steady(ctx, K):
     wired = False
     for bm in owners:
         o = bm.self_obj
-        vals = list(o.fields.values())
+        vals = [v for _, v in fn.slots(o).items()]
         wired = wired or (any(v is joy for v in vals) and any(v is btn for v in vals) and any(_lin_eq(v, P) for v in vals if not isinstance(v, (Ext, bool)) and v is not None))
     ctx.require(wired, "C19.O1", "Toggle(debounce_period=P) samples through a steady debouncer on its joystick/button with period P", "Toggle(joystick, button, debounce_period) does not sample its own button through a steady debouncer with that period", site=site, key="C19.O1|wiring")
     if af:
@@ -221,10 +221,10 @@ def button_debouncer(ctx):
 
     def run(it, w):
         o = it.call(K, [Ext("joystick", "user", role="instance"), Sym("buttonnum", "num", uid=0)], {"period": P})
-        anchor = [k for k, v in o.fields.items() if isinstance(v, int) and not isinstance(v, bool)]
+        anchor = [k for k, v in fn.slots(o).items() if isinstance(v, int) and not isinstance(v, bool)]
         if len(anchor) != 1:
-            raise AnalysisError(f"cannot infer the 'last accepted press' field of ButtonDebouncer: {o.fields}")
-        o.fields[anchor[0]] = L
+            raise AnalysisError(f"cannot infer the 'last accepted press' field of ButtonDebouncer: {dict(fn.slots(o).items())}")
+        fn.slots(o)[anchor[0]] = L
         r = it.call(it.getattr(o, "get"), [], {})
         if isinstance(r, Cond):
             r = it.truth(r)
@@ -232,7 +232,7 @@ def button_debouncer(ctx):
         now = [e.extra for e in it.trace if e.kind == "clock"]
         # evaluate the specification on the same path
         spec_gt = it.truth(cmp_cond(">", Lin.of(now[0]).add(L, -1).simplify(), P)) if now else None
-        return r, o.fields[anchor[0]], now, anchor[0], spec_gt
+        return r, fn.slots(o)[anchor[0]], now, anchor[0], spec_gt
 
     paths = fn.all_paths(ctx, run)
     ctx.add("paths", len(paths))
@@ -270,13 +270,13 @@ def periodic_filter(ctx):
 
     def run(it, w):
         o = it.call(K, [P], {"bypass_level": B})
-        anchor = [k for k, v in o.fields.items() if _lin_eq(v, Lin.of(P).scale(-1))]
+        anchor = [k for k, v in fn.slots(o).items() if _lin_eq(v, Lin.of(P).scale(-1))]
         if len(anchor) != 1:
-            raise AnalysisError(f"cannot infer the 'last log' field of PeriodicFilter: {o.fields}")
-        o.fields[anchor[0]] = L
-        for k, v in o.fields.items():
+            raise AnalysisError(f"cannot infer the 'last log' field of PeriodicFilter: {dict(fn.slots(o).items())}")
+        fn.slots(o)[anchor[0]] = L
+        for k, v in fn.slots(o).items():
             if isinstance(v, bool):
-                o.fields[k] = Sym("flag_" + k, "bool", uid=0)  # whatever the previous call left behind
+                fn.slots(o)[k] = Sym("flag_" + k, "bool", uid=0)  # whatever the previous call left behind
         rec = Ext("record", "user", role="instance")
         rec.attrs[".levelno"] = lvl
         r = it.call(it.getattr(o, "filter"), [rec], {})
@@ -284,7 +284,7 @@ def periodic_filter(ctx):
         now = [e.extra for e in it.trace if e.kind == "clock"]
         gt = it.truth(cmp_cond(">", Lin.of(now[0]).add(L, -1).simplify(), P)) if now else None
         ge = it.truth(cmp_cond(">=", lvl, B))
-        return r, o.fields[anchor[0]], now, anchor[0], gt, ge
+        return r, fn.slots(o)[anchor[0]], now, anchor[0], gt, ge
 
     paths = fn.all_paths(ctx, run)
     ctx.add("paths", len(paths))
@@ -339,16 +339,16 @@ def watchdog(ctx):
     # roles from enable(): the fields that receive now and now + timeout
     it = Interp(ctx.program)
     o = fresh(it)
-    tfield = [k for k, v in o.fields.items() if not isinstance(v, (Ext, bool, int)) and v is not None and "int" in repr(v)]
+    tfield = [k for k, v in fn.slots(o).items() if not isinstance(v, (Ext, bool, int)) and v is not None and "int" in repr(v)]
     n0 = len(it.trace)
     it.call(it.getattr(o, "enable"), [], {})
     now = [e.extra for e in it.trace[n0:] if e.kind == "clock"]
     if len(now) != 1 or len(tfield) != 1:
         raise AnalysisError("SimpleWatchdog.enable does not read the clock exactly once / timeout field not found")
     tf = tfield[0]
-    T = o.fields[tf]
-    start_f = [k for k, v in o.fields.items() if _lin_eq(v, now[0])]
-    exp_f = [k for k, v in o.fields.items() if _lin_eq(v, Lin.of(now[0]).add(T))]
+    T = fn.slots(o)[tf]
+    start_f = [k for k, v in fn.slots(o).items() if _lin_eq(v, now[0])]
+    exp_f = [k for k, v in fn.slots(o).items() if _lin_eq(v, Lin.of(now[0]).add(T))]
     ok = len(start_f) == 1 and len(exp_f) == 1
     ctx.require(ok, "C19.O4", "enable(): start = now, expiry = now + timeout", f"after enable() no field holds (clock read + timeout): start candidates {start_f}, expiry candidates {exp_f}", site=sitef("enable"), key="C19.O4|enable")
     if not ok:
@@ -362,13 +362,13 @@ def watchdog(ctx):
         n0 = len(it.trace)
         it.call(it.getattr(o, meth), args, {})
         now = [e.extra for e in it.trace[n0:] if e.kind == "clock"]
-        good = len(now) >= 1 and _lin_eq(o.fields[sf], now[-1]) and _lin_eq(o.fields[ef], Lin.of(now[-1]).add(o.fields[tf]))
-        ctx.require(good, "C19.O4", f"{meth}(): expiry = this call's clock read + timeout", f"after {meth}() start={o.fields[sf]!r} expiry={o.fields[ef]!r} timeout={o.fields[tf]!r}: expiry is not (clock read of this call + timeout)", site=sitef(meth), key=f"C19.O4|{meth}")
+        good = len(now) >= 1 and _lin_eq(fn.slots(o)[sf], now[-1]) and _lin_eq(fn.slots(o)[ef], Lin.of(now[-1]).add(fn.slots(o)[tf]))
+        ctx.require(good, "C19.O4", f"{meth}(): expiry = this call's clock read + timeout", f"after {meth}() start={fn.slots(o)[sf]!r} expiry={fn.slots(o)[ef]!r} timeout={fn.slots(o)[tf]!r}: expiry is not (clock read of this call + timeout)", site=sitef(meth), key=f"C19.O4|{meth}")
     # isExpired
     E = Sym("expiry", "num", uid=0)
     it = Interp(ctx.program)
     o = fresh(it)
-    o.fields[ef] = E
+    fn.slots(o)[ef] = E
     n0 = len(it.trace)
     r = it.call(it.getattr(o, "isExpired"), [], {})
     now = [e.extra for e in it.trace[n0:] if e.kind == "clock"]
@@ -378,19 +378,19 @@ def watchdog(ctx):
     LP = Sym("lastprint", "num", uid=0)
     it = Interp(ctx.program)
     o = fresh(it)
-    zero_fields = [k for k, v in o.fields.items() if isinstance(v, int) and not isinstance(v, bool) and v == 0 and k not in (sf, ef)]
+    zero_fields = [k for k, v in fn.slots(o).items() if isinstance(v, int) and not isinstance(v, bool) and v == 0 and k not in (sf, ef)]
 
     def run(it, w):
         o = fresh(it)
-        o.fields[ef] = E
-        o.fields[sf] = Sym("start", "num", uid=0)
+        fn.slots(o)[ef] = E
+        fn.slots(o)[sf] = Sym("start", "num", uid=0)
         for k in zero_fields:
-            o.fields[k] = Sym("anchor_" + k, "num", uid=0)
-        for k, v in o.fields.items():
+            fn.slots(o)[k] = Sym("anchor_" + k, "num", uid=0)
+        for k, v in fn.slots(o).items():
             from ..values import ListV
 
             if isinstance(v, ListV):
-                o.fields[k] = ListOf((Sym("epoch", "str", tag="nonnull"), Sym("t", "num")), label="epochs")
+                fn.slots(o)[k] = ListOf((Sym("epoch", "str", tag="nonnull"), Sym("t", "num")), label="epochs")
         n0 = len(it.trace)
         it.call(it.getattr(o, "printIfExpired"), [], {})
         warns = [e for e in it.trace[n0:] if e.kind == "ext" and e.name.endswith(".warning")]
@@ -405,14 +405,14 @@ def watchdog(ctx):
             ctx.fail("C19.O4", f"printIfExpired raises {fn.exc_name(p.value)}", site=sitef("printIfExpired"), key="C19.O4|print|raise")
             continue
         o, warns, now = p.value
-        changed = [k for k in zero_fields if not (isinstance(o.fields[k], Sym) and o.fields[k].name == "anchor_" + k)]
+        changed = [k for k in zero_fields if not (isinstance(fn.slots(o)[k], Sym) and fn.slots(o)[k].name == "anchor_" + k)]
         if warns:
             n = now[0] if now else None
             exp_ok = n is not None and holds(p, Lin.of(E).add(n, -1))  # expiry - now < 0
             rate = [k for k in zero_fields if n is not None and holds(p, Lin.of(F(1000000)).add(n, -1).add(Sym("anchor_" + k, "num", uid=0)))]
             good = exp_ok and len(rate) >= 1 and len(warns) == 1
             ctx.require(good, "C19.O4", "warning only when expired and more than 1e6 us after the last warning", f"printIfExpired warns on path [{pathdesc(p)}]: not guarded by (now > expiry) and (now - last warning > 1000000 us, strict)", site=sitef("printIfExpired"), key="C19.O4|print|guard")
-            upd = [k for k in rate if _lin_eq(o.fields[k], n)]
+            upd = [k for k in rate if _lin_eq(fn.slots(o)[k], n)]
             ctx.require(bool(upd), "C19.O4", "last-warning time := now on the warning path", f"printIfExpired warns without recording the time of this warning (path [{pathdesc(p)}]): the next call warns again immediately instead of at most once per second", site=sitef("printIfExpired"), key="C19.O4|print|store")
             anchors.update(rate)
         else:
